@@ -469,7 +469,7 @@ def ctorMove (cfg : Cfg) (c o : Nat) : M α Unit :=
 
 /-- allocator-extended move construction (hpp:3303-3354) -/
 def ctorMoveAlloc (cfg : Cfg) (c o a : Nat) : M α Unit :=
-  if cfg.isStdAlloc || (cfg.libAlwaysEq && cfg.alwaysEq) then ctorMove cfg c o else
+  if ctorMoveAllocDelegates cfg.policy then ctorMove cfg c o else
   getV o >>= fun ov =>
   setAlloc c a >>= fun _ =>
   if ov.alloc = a then moveInitialize cfg c o else
